@@ -37,6 +37,7 @@ type atpServerSession struct {
 	ctx            context.Context
 	wg             *sync.WaitGroup
 	stdinCloser    io.ReadCloser
+	decMode        cbor.DecMode
 	cborStdin      *cbor.Decoder
 	cborStdout     *cbor.Encoder
 	runningSteps   map[string]string // Maps run ID to step ID
@@ -65,12 +66,17 @@ func initializeATPServerSession(
 ) *atpServerSession {
 	workDone := make(chan ServerError, 3)
 	// The ATP protocol uses CBOR.
-	cborStdin := cbor.NewDecoder(stdin)
-	cborStdout := cbor.NewEncoder(stdout)
+	decMode, err := decOptions().DecMode()
+	if err != nil {
+		panic(err)
+	}
+	cborStdin := decMode.NewDecoder(stdin)
+	cborStdout := encMode().NewEncoder(stdout)
 	runDoneChannel := make(chan bool, 3) // Buffer to prevent it from hanging if something unexpected happens.
 
 	return &atpServerSession{
 		ctx:            ctx,
+		decMode:        decMode,
 		cborStdin:      cborStdin,
 		stdinCloser:    stdin,
 		cborStdout:     cborStdout,
@@ -216,7 +222,7 @@ func (s *atpServerSession) onRuntimeMessageReceived(message *DecodedRuntimeMessa
 	switch message.MessageID {
 	case MessageTypeWorkStart:
 		var workStartMsg WorkStartMessage
-		if err := cbor.Unmarshal(message.RawMessageData, &workStartMsg); err != nil {
+		if err := s.decMode.Unmarshal(message.RawMessageData, &workStartMsg); err != nil {
 			s.workDone <- ServerError{
 				RunID:       runID,
 				Err:         fmt.Errorf("failed to decode work start message: %w", err),
@@ -229,7 +235,7 @@ func (s *atpServerSession) onRuntimeMessageReceived(message *DecodedRuntimeMessa
 		return false
 	case MessageTypeSignal:
 		var signalMessage SignalMessage
-		if err := cbor.Unmarshal(message.RawMessageData, &signalMessage); err != nil {
+		if err := s.decMode.Unmarshal(message.RawMessageData, &signalMessage); err != nil {
 			s.workDone <- ServerError{
 				RunID:       runID,
 				Err:         fmt.Errorf("failed to decode signal message: %w", err),
